@@ -572,6 +572,28 @@ def panic_sites(C, R, F, E, roles, cfg):
                         R.fail('C01.P.pop', [m['path'], 'pop-without-emptiness-test'],
                                '%s pops the buffer without a preceding !is_empty() on the path (RingBuf::pop panics '
                                'when empty)' % m['path'], where(F, e))
+    # the documented try_send panic fires only for capacity 0
+    from common import cmp_fact, eq_fact
+    st = 'channel::mpmc::ChannelState'
+    for m in entry_methods(F, CG, st):
+        for path in E.run(m['path']):
+            if path.exit != 'panic':
+                continue
+            msgs = [a for e in path.events if e['k'] == 'call' and e.get('diverges') for a in e['args']
+                    if a[0] == 'const' and isinstance(a[1], str)]
+            if not any('not supported for unbuffered' in x[1] for x in msgs) and not any(
+                    e['k'] == 'call' and e.get('diverges') and 'not supported for unbuffered' in repr(e.get('args'))
+                    for e in path.events):
+                continue
+            caps = [e['ret'] for e in path.events if e['k'] == 'call' and e.get('name') == 'capacity']
+            zero = any(eq_fact(E, path.facts, c, ('const', 0)) == 1 or
+                       cmp_fact(E, path.facts, 'Gt', c, ('const', 0)) == 0 for c in caps)
+            if zero:
+                R.ok('C01.P', '%s|the unbuffered-channel panic fires only for capacity() == 0' % m['path'])
+            else:
+                R.fail('C01.P', [m['path'], 'unbuffered-panic-on-buffered-channel'],
+                       '%s: the "not supported for unbuffered channels" assertion can fire on a path that has not '
+                       'established capacity() == 0' % m['path'], '%s:%s' % (m['file'], m['line']))
     # stream unwrap: no feasible None path in the stream's own frame
     for fn in F.raw['fns']:
         if fn.get('name') != 'poll_next':
